@@ -197,7 +197,11 @@ def make_graph(rng, quick, hostile=False, clash=False, shape=None, extra=None, s
     if shape in (None, "markup-id", "attr-only") and g.uris and rng.random() < 0.6:
         # equal-but-distinct values inside ONE namespace (whatever is keyed by == would write one of them twice)
         from opcua_tools import ua_data_types as T_
-        for nm_, v_ in (("ZeroPlus", T_.UADouble(0.0)), ("ZeroMinus", T_.UADouble(-0.0)), ("ZeroList", T_.UAListOf((T_.UAFloat(-0.0), T_.UAFloat(0.0)), "Float"))):
+        NS_ = "http://opcfoundation.org/UA/2008/02/Types.xsd"
+        for nm_, v_ in (("ZeroPlus", T_.UADouble(0.0)), ("ZeroMinus", T_.UADouble(-0.0)), ("ZeroList", T_.UAListOf((T_.UAFloat(-0.0), T_.UAFloat(0.0)), "Float")),
+                        # a string written with preserved white space around it, and a raw structure whose document binds the types namespace to a prefix
+                        ("Padded", T_.UAString("P-101 preserve")),
+                        ("RawArgs", T_.UAListOf((T_.UAExtensionObject(type_nodeid=T_.UANodeId(0, "i", "297"), body=T_.UAXMLElement('<Argument xmlns="%s"><Name>prefixed</Name><ValueRank>-1</ValueRank></Argument>' % NS_)),), "ExtensionObject"))):
             k_ = (g.uris[0], "s", nm_); g.nodes[k_] = dict(cls="UAVariable", bname=(g.uris[0], nm_), display=nm_, desc=None, attrs={}, value=v_); g.order.append(k_)
             g.refs.append(((UA, "i", "85"), k_, (UA, "i", "35")))
     if extra: extra(g)
@@ -395,6 +399,7 @@ def run(ctx, prop):
     reqs = []; meta = []
     try:
         for ci in range({"quick": 14, "thorough": 300}[ctx.tier]):
+            vlib.pandas_mode(ci + 1)
             shape = {0: "skip-middle", 1: "markup-id", 2: "slash-twin", 3: "wide", 5: "attr-only", 6: "hub"}.get(ci % 7)
             # the structural shapes are generated without hostile text, so that what they show is not attributed to the recorded escaping findings
             hostile = rng.random() < 0.4 and shape in (None, "markup-id")
